@@ -24,6 +24,11 @@ A_TOK_CORE = ['\\begin{e}', '\\end{e}', '\\end{f}', '\\begin{verbatim}', '\\end{
               '\\(', '\\]', '\\\\', '%', '\n', ' ', 'a', '\\left(', '\\textbf{', '\\newcommand', '\\begin', '\\end', '\r',
               '\\section{a}[b]']
 
+# environment names in every written form (nested braces, blanks, line breaks, a command with a spaced argument) on
+# both delimiters, with a little context: all strings of up to 3 of these symbols decide which \\begin/\\end pairs match
+_ENV_NAME_FORMS = ['e', '{e}', 'e{}', 'a b', 'a\nb', ' e', 'e ', 'a\\b {x}', 'a\\b{x}', 'E', 'e*', 'ee']
+A_ENV = ['\\begin{%s}' % n for n in _ENV_NAME_FORMS] + ['\\end{%s}' % n for n in _ENV_NAME_FORMS] + ['x', '{', '}', ' ', '\\end {e}', '\\begin {e}', '[o]']
+
 DOCUMENTED_ASSERTS = ('Begin command must be followed by an env name.', 'invalid in math mode')
 
 
